@@ -489,4 +489,29 @@ theorem okLimitAncestors_apps (g : Bool) (e : Entry) (h : LimAncOK appsDom appsO
         · exact absurd h1 hna
         · exact hw l x (h1 a ha x hx x.maxApps rfl)
 
+/-! ### what is handed down to the children (resources) -/
+
+/-- The limit checkLimitResource hands down for a name that has an inherited entry (`ComponentWiseMin(limit, existing)`):
+    per resource type the smaller value where both name the type, and the value of the one that names it otherwise.  In
+    particular the types that only the ANCESTORS name stay in the handed down limit, so the queues further down are still
+    compared with them. -/
+theorem resDom_comb_get? (lim ex : Res) (hl : wf lim = true) (he : wf ex = true) (t : String) :
+    (resDom.comb lim ex).get? t =
+      match lim.get? t, ex.get? t with
+      | some a, some b => some (min a b)
+      | some a, none => some a
+      | none, some b => some b
+      | none, none => none := by
+  have hk := cwMin_get? lim ex hl he t
+  have hs : componentWiseMin (some lim) (some ex) = some ((componentWiseMin (some lim) (some ex)).getD []) := by
+    unfold componentWiseMin; rfl
+  rw [hs] at hk
+  simp only [oget, orZero, Option.getD_some] at hk
+  exact hk
+
+theorem resDom_comb_keeps_inherited_types (lim ex : Res) (hl : wf lim = true) (he : wf ex = true) (t : String)
+    (h : lim.get? t = none) : (resDom.comb lim ex).get? t = ex.get? t := by
+  rw [resDom_comb_get? lim ex hl he t, h]
+  cases ex.get? t <;> rfl
+
 end Yk.Conf
